@@ -17,6 +17,7 @@ import MVoro.Drv.Geom
 import MVoro.Drv.Clip
 import MVoro.Drv.NN
 import MVoro.Drv.Aux20
+import MVoro.Drv.Faces
 
 open MVoro MVoro.Drv
 
@@ -172,6 +173,7 @@ def handle (line : String) : String :=
       | "routes" => opRoutes args
       | "iloc" => opIloc args
       | "geom" => opGeom args
+      | "withfaces" => opWithFaces args
       | "knn" => opKnn args
       | "sphere" => opSphere args
       | "nnvisit" => (match parseTessIn args with | some (t0, rest) => opNNVisit t0 rest | none => "bad-op")
